@@ -252,8 +252,13 @@ func genHist(r *lib.Rng, id int64, tier string, withSaves bool) Case {
 
 func genDirect(r *lib.Rng, id int64, tier string) Case {
 	c := Case{ID: id, Mode: "direct", Dir: randomDir(r)}
-	if r.Chance(1, 6) {
+	switch r.Intn(12) {
+	case 0, 1:
 		c.Dir.MainMissing = true
+	case 2:
+		c.Dir.TmpIsDir, c.Dir.TmpLeft = true, ""
+	case 3:
+		c.Dir.BakIsDir, c.Dir.Bak = true, nil
 	}
 	n := r.Range(2, 14)
 	var pool []Op
@@ -310,6 +315,11 @@ func corpus() []Case {
 			Val: raw(dastard.SimPulseSourceConfig{Nchan: 2, SampleRate: 10, Pedestal: 100, Amplitudes: []float64{1000, 2000}, Nsamp: 1000})},
 			{Op: "U", Tag: "TRIANGLE", Typed: true, Val: raw(dastard.TriangleSourceConfig{Nchan: 2, SampleRate: 1000, Min: 9, Max: 3})},
 			{Op: "S"}, {Op: "R"}}},
+		// early returns of saveState: the temporary file cannot be written; the old backup cannot be removed
+		{Mode: "direct", Dir: dirSpec{Init: map[string]OpVal{"STATELABEL": {Val: raw("old")}}, TmpIsDir: true},
+			Ops: []Op{{Op: "U", Tag: "STATELABEL", Val: raw("new")}, {Op: "S"}, {Op: "S"}}},
+		{Mode: "direct", Dir: dirSpec{Init: map[string]OpVal{"STATELABEL": {Val: raw("old")}}, BakIsDir: true},
+			Ops: []Op{{Op: "U", Tag: "STATELABEL", Val: raw("new")}, {Op: "S"}, {Op: "S"}}},
 		// SENDALL: nothing yet; repeats; unchanged values; events and comment keys; volatile topics
 		{Mode: "hist", Ops: []Op{{Op: "SA"},
 			{Op: "U", Tag: "STATUS", Typed: true, Val: st(1000, 250)}, {Op: "U", Tag: "STATUS", Typed: true, Val: st(1000, 250)},
